@@ -452,7 +452,19 @@ def check_resume_order(prog, rep):
                       'flag-after-init',
                       'loaded_from_checkpoint must be set before __init__ runs (it decides '
                       'whether existing output is overwritten or renamed)', fc.lineno)
-    if "kwargs.setdefault('resume_data', checkpoint_results['resume_data'])" not in src:
+    fwd = False
+    pc = params(fc)
+    res_p = [x for x in pc if 'checkpoint' in x or 'results' in x]
+    for c in body_nodes(fc):
+        e = pmatch("$k.setdefault('resume_data', $r['resume_data'])", c) or \
+            pmatch("$k.setdefault('resume_data', $r.get('resume_data'))", c)
+        if e and e['$r'] in res_p and fc.args.kwarg is not None and e['$k'] == fc.args.kwarg.arg:
+            fwd = True
+    for st in stmts_of(fc):
+        e = pmatch("$k['resume_data'] = $r['resume_data']", st)
+        if e and e['$r'] in res_p and fc.args.kwarg is not None and e['$k'] == fc.args.kwarg.arg:
+            fwd = True
+    if not fwd:
         rep.violation('RESUME-from-checkpoint', m, 'Simulation.from_saved_checkpoint',
                       'resume-data-not-forwarded',
                       'resume_data of the checkpoint is not passed to the simulation', fc.lineno)
